@@ -255,7 +255,13 @@ def add_equal_ranks(rng, e):
 
 def render_blt(e):
     out = ['%d %d' % (e['n'], e['s'])]
-    if e['wd']: out.append(' '.join('-%d' % c for c in e['wd']))
+    if e['wd']:
+        # the same withdrawals in one of four spellings (chosen from the data, so that rendering stays a function of e)
+        wd = list(e['wd']); form = (sum(wd) + e['n']) % 4
+        if form == 0 or (len(wd) == 1 and form == 2): out.append(' '.join('-%d' % c for c in wd))
+        elif form == 1: out.append('[withdrawn %s]' % ' '.join(map(str, wd)))
+        elif form == 2: out.append('-%d' % wd[0]); out.append('[withdrawn %s]' % ' '.join(map(str, wd[1:])))
+        else: out.extend('[withdrawn %d]' % c for c in wd)
     if e['und']: out.append('[undeclared %s]' % ' '.join(map(str, e['und'])))
     if e.get('tie'): out.append('[tie %s]' % ' '.join(map(str, e['tie'])))
     for m, r in e['lines']:
